@@ -72,9 +72,16 @@ def workdir(name):
     return d
 
 
+# properties whose statement bounds the wall-clock time of a query: every worker of theirs runs under the per-case
+# watchdog (harness monitor::hang), whatever build or phase it belongs to
+HANG_LIMIT_S = {"C16": 300}
+
+
 def run_shards(binp, pid, tier, seed, watchdog_s=None, nshards=None, tag="main", extra_args=None, hang_limit_s=None):
     """Run the sharded workers; returns (reports, problems)."""
     n = nshards or NSHARDS
+    if hang_limit_s is None:
+        hang_limit_s = HANG_LIMIT_S.get(pid)
     wd = workdir(f"{pid}-{tier}-{tag}")
     if watchdog_s is None:
         watchdog_s = 900 if tier == "quick" else 7200
